@@ -474,12 +474,15 @@ where
             return true;
         }
 
-        let (event, time) = self.future_event_set.fetch_next();
-
-        if self.limit.applies(self.itr + 1, time) {
-            self.future_event_set.add(time, event);
+        // Decide the limit before the event is taken out of the event set,
+        // so that a stop neither reorders events nor advances the event-set time.
+        let (limit, itr) = (&self.limit, self.itr);
+        let Some((event, time)) = self
+            .future_event_set
+            .fetch_next_if(|time| !limit.applies(itr + 1, time))
+        else {
             return true;
-        }
+        };
 
         self.itr += 1;
 
